@@ -41,7 +41,8 @@ THEOREMS = ["Stab.props.C15." + t for t in (
     "C15_budget_accept", "C15_budget_count_written", "C15_budget_exhausted", "C15_budget_counter",
     "C15_budget_step", "C15_budget_run_partial", "C15_accepted_jump_raises", "C15_exhausted_jump_fails_source",
     "C15_resettable_spec", "C15_dependents_spec", "C15_closed_in_dependents",
-    "C15_rearm_exact", "C15_skipped_members", "C15_canceled_noop")]
+    "C15_rearm_exact", "C15_rearm_exact_top", "C15_rearm_children", "C15_rearm_parents", "C15_child_reset_once",
+    "C15_skipped_members", "C15_canceled_noop")]
 TRUSTED_BASE = [
     "SQLite: a write transaction is atomic; AUTOINCREMENT ids increase",
     "task behaviour is a function of (stage, task, n-th execution) (scripted oracle mirrored by a scripted Python Task)",
@@ -57,6 +58,7 @@ ASSUMPTIONS = [
 
 STUCK_SIG = "stuck:RUNNING[REDIRECT]"
 STALE_SIG = "stuck:stale-task-message-after-rearm"
+DUP_SIG = "stuck:duplicate-task-run-after-rearm"
 FOREVER = -1
 COMPLETE = {"SUCCEEDED", "FAILED_CONTINUE", "TERMINAL", "CANCELED", "STOPPED", "SKIPPED"}
 
@@ -67,6 +69,11 @@ COMPLETE = {"SUCCEEDED", "FAILED_CONTINUE", "TERMINAL", "CANCELED", "STOPPED", "
 
 def spec_reqs(spec) -> dict:
     return {s["ref"]: set(s.get("reqs", [])) for s in spec["stages"]}
+
+
+def spec_kids(spec) -> dict:
+    """parent ref -> refs of its synthetic children (before / after / on-failure stages)"""
+    return {s["ref"]: [c["ref"] for kind in ("before", "after", "on_failure") for c in s.get(kind, [])] for s in spec["stages"]}
 
 
 def closure(reqs: dict, seed: str) -> set:
@@ -283,6 +290,21 @@ def shapes() -> dict:
                                        St("D", ["B", "C"]), St("E", ["D"]), St("F", ["E"])], "A", "E", False),
         "forward_side": (lambda k: [St("A", tasks=[jump_script("D", min(k, 1) if k != FOREVER else FOREVER)]), St("B", ["A"]), St("C", ["B"]),
                                     St("D", ["C"]), St("S", ["A"]), St("J", ["S", "D"])], "A", "D", False),
+        # jumps x synthetic stages (before / after children are re-armed with their parent)
+        "syn_cycle": (lambda k: [St("A", tasks=[["ok:k2=2"]], before=[St("A.b0")], after=[St("A.a0")]),
+                                 St("B", ["A"], tasks=[jump_script("A", k)], before=[St("B.b0")]), St("C", ["B"])], "B", "A", True),
+        "syn_self": (lambda k: [St("A", tasks=[jump_script("A", k)], before=[St("A.b0"), St("A.b1", chain=True)], after=[St("A.a0")]),
+                                St("B", ["A"])], "A", "A", True),
+        "syn_side": (lambda k: [St("A"), St("B", ["A"], tasks=[jump_script("A", k)]),
+                                St("P", ["A"], before=[St("P.b0", tasks=[["ok"], ["ok"]]), St("P.b1")], after=[St("P.a0"), St("P.a1", chain=True)]),
+                                St("K", ["P"])], "B", "A", True),
+        # the jumping task belongs to an after stage of the target: by the handler's rule this is a FORWARD jump (the child is
+        # not downstream of its parent), the child is marked SUCCEEDED and then re-armed as a child of the target
+        "syn_child_jumps": (lambda k: [St("A", after=[St("A.a0", tasks=[jump_script("A", min(k, 1) if k != FOREVER else FOREVER)])]),
+                                       St("B", ["A"])], "A.a0", "A", False),
+        "syn_forward_over": (lambda k: [St("A", tasks=[jump_script("D", min(k, 1) if k != FOREVER else FOREVER)]),
+                                        St("B", ["A"], before=[St("B.b0")], after=[St("B.a0")]), St("C", ["B"]),
+                                        St("D", ["C"], before=[St("D.b0")])], "A", "D", False),
     }
 
 
@@ -323,6 +345,8 @@ def engine_cases(ctx) -> list[dict]:
     settings = [0, 1, 2, 3, dmj, None]
     for name, (build, src, tgt, backward) in shapes().items():
         for mj in settings:
+            if name.startswith("syn_") and not thorough and mj not in (1, 3, None):
+                continue
             emax = dmj if mj is None else mj
             ks = list(range(0, emax + 3)) + [FOREVER] if thorough else sorted({0, 1, emax, emax + 1, emax + 2} | ({2} if emax >= 2 else set())) + [FOREVER]
             if not backward:
@@ -330,6 +354,8 @@ def engine_cases(ctx) -> list[dict]:
             placements = ["workflow", "stage", "both"] if thorough else ["workflow" if (emax + len(name)) % 2 == 0 else "stage"]
             if mj is None:
                 placements = ["none"]
+            elif name.startswith("syn_") and thorough:
+                placements = ["workflow"]       # the budget placement is covered by the plain shapes
             for k in ks:
                 if not thorough and emax == dmj and k not in (0, 1, emax, emax + 1, FOREVER):
                     continue
@@ -387,6 +413,7 @@ def monitor(out) -> list[Violation]:
     spec = case["spec"]
     meta = case.get("c15") or {}
     reqs = spec_reqs(spec)
+    kids = spec_kids(spec)
     order = [s["ref"] for s in spec["stages"]]
     id_ref = out["id_ref"]
     marks = out["audit_marks"]
@@ -425,22 +452,34 @@ def monitor(out) -> list[Violation]:
             src = id_ref.get(payload.get("stage_id"))
             tgt = payload.get("target_stage_ref_id")
             pushes = [r["new"] for r in rows if r["kind"] == "push"]
-            changes = {id_ref.get(r["ent"], r["ent"]): (r["old"], r["new"]) for r in rows if r["kind"] == "stage"}
+            changes = {}
+            for r in rows:
+                if r["kind"] == "stage":
+                    x = id_ref.get(r["ent"], r["ent"])
+                    changes[x] = (changes[x][0] if x in changes else r["old"], r["new"])
             if src is not None:
                 requests[src] = requests.get(src, 0) + 1
             if "StartStage" in pushes:
                 accepted[src] = accepted.get(src, 0) + 1
                 backward = src == tgt or src in dependents(reqs, tgt)
+                parents = [x for x in order if x in closure(reqs, tgt) and x not in (src, tgt)] + ([src] if backward and src != tgt else []) + [tgt]
                 want_ns = ({tgt} | closure(reqs, tgt) | ({src} if backward else set()))
-                for x in want_ns:                    # a new iteration of x begins here, whether or not its status changes
-                    rearms[x].append(rows[0]["seq"])
-                want_ns = {x for x in want_ns if status[x] != "NOT_STARTED"}
-                want_sk = set() if backward else {x for x in closure(reqs, src) - ({tgt} | dependents(reqs, tgt)) if status[x] == "NOT_STARTED"}
-                want = {x: "NOT_STARTED" for x in want_ns}
-                want.update({x: "SKIPPED" for x in want_sk})
-                if not backward and src != tgt:
-                    want[src] = "SUCCEEDED"
-                got = {x: new for x, (old, new) in changes.items()}
+                final_want = {x: "NOT_STARTED" for x in want_ns}
+                if not backward:
+                    for x in closure(reqs, src) - ({tgt} | dependents(reqs, tgt)):
+                        if status.get(x) == "NOT_STARTED" and x not in final_want:
+                            final_want[x] = "SKIPPED"
+                    if src != tgt:
+                        final_want[src] = "SUCCEEDED"
+                # _synthetic_reset_mutations: the existing children of every re-armed parent are re-armed after it
+                for par in parents:
+                    for c in kids.get(par, []):
+                        if c in status:
+                            final_want[c] = "NOT_STARTED"
+                for x in set(want_ns) | {c for par in parents for c in kids.get(par, [])}:
+                    rearms.setdefault(x, []).append(rows[0]["seq"])   # a new iteration of x begins here
+                want = {x: v for x, v in final_want.items() if status.get(x) is not None and status[x] != v}
+                got = {x: new for x, (old, new) in changes.items() if new != status.get(x)}
                 if got != want:
                     vs.append(Violation(
                         what=f"jump {src} -> {tgt} ({'backward' if backward else 'forward'}) changed stage statuses {changes}; "
@@ -458,7 +497,7 @@ def monitor(out) -> list[Violation]:
         for r in rows:
             if r["kind"] == "stage":
                 ref = id_ref.get(r["ent"], r["ent"])
-                if ref in status:
+                if ref in status or any(ref in v for v in kids.values()):
                     status[ref] = r["new"]
                     if r["new"] == "SKIPPED" and is_jump:
                         skipped_at[ref] = r["seq"]
@@ -535,9 +574,10 @@ def monitor(out) -> list[Violation]:
             vs.append(Violation(what=f"stage {ref} was skipped by a forward jump but ends {final[ref]['status']}",
                                 signature="skipped-not-final", replay=_replay(out)))
     # (e) the workflow ends.  A queue holding nothing but CompleteWorkflow re-queues (the 15 s wait loop of
-    # CompleteWorkflowHandler, up to max_stage_wait_retries rounds) is as good as drained: nothing else will ever happen.
+    # CompleteWorkflowHandler, up to max_stage_wait_retries rounds) is as good as drained: nothing else will ever happen
+    # (the same holds for the ContinueParentStage wait loop of a parent whose synthetic child never finishes).
     pending = [q["type"] for q in out["final"]["queue"]]
-    waiting_only = bool(pending) and all(t == "CompleteWorkflow" for t in pending)
+    waiting_only = bool(pending) and all(t in ("CompleteWorkflow", "ContinueParentStage") for t in pending)
     if (out["quiescent"] or waiting_only) and wf not in COMPLETE:
         unfinished = {r: (s["status"], [t[0] for t in s["tasks"]]) for r, s in final.items() if s["status"] not in COMPLETE}
         causes = []
@@ -547,6 +587,19 @@ def monitor(out) -> list[Violation]:
         if any(st == "RUNNING" and ts and all(t in COMPLETE for t in ts) and r in stale_exec for r, (st, ts) in unfinished.items()):
             causes.append((STALE_SIG, "a StartTask/RunTask of the previous iteration ran the task of a re-armed (NOT_STARTED) stage; when the "
                                       "stage really started its task was already complete, StartTask was ignored and the stage never completes"))
+        # stages that handled a task-level message pushed BEFORE their latest re-arm AFTER that re-arm
+        pseq = {int(r["ent"]): r["seq"] for r in audit if r["kind"] == "push"}
+        dup = set()
+        for ai2, a2 in enumerate(out["actions"]):
+            if a2[0] in ("D", "X") and a2[1] in pushed and pushed[a2[1]][0] in ("StartTask", "RunTask", "CompleteTask"):
+                ref2 = id_ref.get(pushed[a2[1]][1].get("stage_id"))
+                before = marks[ai2 - 1] if ai2 > 0 else 0
+                if any(pseq.get(a2[1], 1 << 60) < q <= before for q in rearms.get(ref2, [])):
+                    dup.add(ref2)
+        if any(st == "RUNNING" and ts and all(t in COMPLETE for t in ts) and r in dup for r, (st, ts) in unfinished.items()):
+            causes.append((DUP_SIG, "task-level messages of the previous iteration were still queued when the jump re-armed a multi-task stage and "
+                                    "became valid again once the new iteration restarted it; the duplicated StartTask / CompleteTask chain makes "
+                                    "CompleteStage arrive while a task is still RUNNING (ignored) and the later copy is dropped: the stage stays RUNNING"))
         if not causes:
             causes.append(("stuck:" + stuck_diagnosis(out), "no known explanation"))
         for sig, why in causes:
@@ -563,7 +616,9 @@ def monitor(out) -> list[Violation]:
 def run_engine(ctx, res: RunResult, cases: list[dict]) -> list[dict]:
     from harness import engine_corr
     t0 = time.time()
-    outs = engine_corr.run_batch(cases)
+    outs = []
+    for lo in range(0, len(cases), 100):      # one oracle process per chunk (its timeout is per call)
+        outs += engine_corr.run_batch(cases[lo:lo + 100])
     dist = {"kinds": {}, "shape": {}, "max_jumps": {}, "k": {}, "placement": {}, "final_wf": {}, "actions_total": 0,
             "commits_compared": 0, "task_executions": 0, "jump_deliveries": 0, "quiescent": 0}
     ndis = 0
